@@ -435,7 +435,7 @@ impl<'a> Worker<'a> {
                     self.stats.max_group_len = self.stats.max_group_len.max(g.len());
                 }
             }
-            if self.samples.len() < 3 && ops.len() == self.run.depth && (self.stats.states % 977 == 1) {
+            if (self.samples.is_empty() && ops.len() >= 2.min(self.run.depth)) || (self.samples.len() < 3 && ops.len() == self.run.depth && (self.stats.states % 977 == 1)) {
                 self.samples.push(json!({"plan": plan_short(ops), "executed_layout": l.short()}));
             }
             if self.run.c19_maps > 0 && all_calls_ok(&obs) {
